@@ -3,6 +3,7 @@ package main
 import (
 	"bytes"
 	"crypto/sha256"
+	"encoding/binary"
 	"fmt"
 	"math/rand"
 	"os"
@@ -17,7 +18,7 @@ import (
 
 func init() {
 	props["C11"] = &propDef{
-		rule: "cases = (a) examples/segmenter binary on generated progressive files (harness/progfile.go and c10_gen.go: one video + optional audio in either order, and 1..3-track files for the multiplexed mode) and the repository's progressive files x modes {one file per track, lazy, multiplexed, multiplexed+lazy} x segment durations {1 ms, around every sync point, random, longer than the file}; (b) examples/resegmenter binary on fragmented single-track files built with the library API (1..5 segments x 1..4 fragments, one or two sample runs per fragment, with/without styp, trun optimisation on/off, values taken from trex defaults, zero/non-zero start time incl. timelines shifted so that a fragment-first or arbitrary sample begins at 2^32-1, 2^32, 2^32+1 or near it, and 64-bit start times) and on the segmenter's own output x new durations in ticks {1, around sync samples' presentation times, random, beyond the end}; (c) mp4.MediaSegment.Fragmentify through the API on the same segments x fragment durations x {trex, nil}; (d) examples/combine-segs binary on pairs of single-track single-fragment segments (library-built, four fifths carrying all values explicitly and one fifth possibly relying on trex defaults, and the segmenter's per-track output); outputs are expanded with the library's Fragment.GetFullSamples per fragment with the output init's trex boxes and the concatenated per-track sequence is compared with the input's (count, bytes, durations, flags, composition offsets, decode times; first sample of every segment is a sync sample of the reference track); non-trivial = distinct case in which the tool/API succeeded",
+		rule: "cases = (a) examples/segmenter binary on generated progressive files (harness/progfile.go and c10_gen.go: one video + optional audio in either order, and 1..3-track files for the multiplexed mode) and the repository's progressive files x modes {one file per track, lazy, multiplexed, multiplexed+lazy} x segment durations {1 ms, around every sync point, random, longer than the file}; (b) examples/resegmenter binary on fragmented single-track files built with the library API (1..5 segments x 1..4 fragments, one or two sample runs per fragment, with/without styp, trun optimisation on/off, values taken from trex defaults, zero/non-zero start time incl. timelines shifted so that a fragment-first or arbitrary sample begins at 2^32-1, 2^32, 2^32+1 or near it, and 64-bit start times) and on the segmenter's own output x new durations in ticks {1, around sync samples' presentation times, random, beyond the end}; (c) mp4.MediaSegment.Fragmentify through the API on the same segments x fragment durations x {trex, nil}; (d) examples/combine-segs binary on pairs of single-track single-fragment segments (library-built, four fifths carrying all values explicitly and one fifth possibly relying on trex defaults, and the segmenter's per-track output); (e) a third of the fragmented tracks of (b)/(c) and a quarter of the pairs of (d) once more with their media segments written by the harness's byte-level packager (c11pack.go, no library encoder): tfhd with base_data_offset (moof start, mdat payload start, first run's data, an earlier position incl. 0, end of the mdat with negative run offsets) with and without default-base-is-moof also set, neither flag, default-base-is-moof only, tfhd defaults and first_sample_flags, 1..3 runs per traf with data_offset present or absent (first run: data at the base; later run: data follows the previous run), run data in any order in the mdat with unreferenced bytes around, 8/16-byte mdat header, tfdt/trun versions 0/1 - read by the library (sample list against the truth; the positions the bytes are taken from against the Lean model of ISO/IEC 14496-12 8.8.7.1 / 8.8.8.1, op seg.pos; a refusal is counted) and fed to the resegmenter, Fragmentify and combine-segs; outputs are expanded with the library's Fragment.GetFullSamples per fragment with the output init's trex boxes and the concatenated per-track sequence is compared with the input's (count, bytes, durations, flags, composition offsets, decode times; first sample of every segment is a sync sample of the reference track); non-trivial = distinct case in which the tool/API succeeded",
 		gen:  genC11,
 		exec: execC11,
 	}
@@ -273,6 +274,10 @@ type ffTrack struct {
 	segs         [][]byte
 	reliesOnTrex bool
 	multiTrun    bool // fragments with >= 2 samples carry them in two truns
+	// which values the init's trex carries (uniform over the track); set by build
+	useDur, useFlags, useSize bool
+	// pack != 0: the media segments are written by the byte-level "foreign packager" of c11pack.go (spec "ffp ... <pack>")
+	pack int64
 }
 
 // keepTrex: with oneFrag, keep the randomly chosen trex mode (values carried by trex defaults) instead of forcing
@@ -440,6 +445,7 @@ func (t *ffTrack) build() {
 		trex.DefaultSampleSize = uint32(len(ss[0].data))
 	}
 	t.reliesOnTrex = useDur || useFlags || useSize
+	t.useDur, t.useFlags, t.useSize = useDur, useFlags, useSize
 	var ib bytes.Buffer
 	must(init.Encode(&ib))
 	t.init = ib.Bytes()
@@ -499,8 +505,8 @@ func (t *ffTrack) build() {
 
 func (t *ffTrack) file() []byte {
 	b := cp(t.init)
-	for _, s := range t.segs {
-		b = append(b, s...)
+	for i := range t.segs {
+		b = append(b, t.segAt(i, uint64(len(b)))...)
 	}
 	return b
 }
@@ -526,12 +532,20 @@ func (t *ffTrack) describe(c *Ctx, what string) {
 }
 
 func ffFromSpec(f []string) (*ffTrack, int, error) {
-	// "ff <seed> <media> <onefrag>"
-	if len(f) < 4 || f[0] != "ff" {
+	// "ff <seed> <media> <onefrag>" | "ffp <seed> <media> <onefrag> <pack seed>" (segments re-written by c11pack.go)
+	if len(f) < 4 || (f[0] != "ff" && f[0] != "ffp") || (f[0] == "ffp" && len(f) < 5) {
 		return nil, 0, fmt.Errorf("bad ff spec")
 	}
 	seed, _ := strconv.ParseInt(f[1], 10, 64)
-	return genFFTrack(rand.New(rand.NewSource(seed)), f[2], f[3] == "1" || f[3] == "2", f[3] == "2"), 4, nil
+	t := genFFTrack(rand.New(rand.NewSource(seed)), f[2], f[3] == "1" || f[3] == "2", f[3] == "2")
+	if f[0] == "ffp" {
+		t.pack, _ = strconv.ParseInt(f[4], 10, 64)
+		if t.pack == 0 {
+			t.pack = 1
+		}
+		return t, 5, nil
+	}
+	return t, 4, nil
 }
 
 // ---------- segmenter
@@ -830,8 +844,11 @@ func checkReseg(c *Ctx, req string, tt *ttrack, tr toolResult, oe *outExpanded, 
 func fragmentifyRun(t *ffTrack, segIdx int, dur uint32, withTrex bool) (oe *outExpanded, nFrags int, err error) {
 	p := safe(func() {
 		var f *mp4.File
-		f, err = mp4.DecodeFile(bytes.NewReader(append(cp(t.init), t.segs[segIdx]...)))
+		f, err = mp4.DecodeFile(bytes.NewReader(append(cp(t.init), t.segAt(segIdx, uint64(len(t.init)))...)))
 		if err != nil {
+			if t.pack != 0 {
+				err = fmt.Errorf("api-error: decode: %w", err)
+			}
 			return
 		}
 		if len(f.Segments) != 1 {
@@ -984,6 +1001,9 @@ func execC11(req string) string {
 		}
 		return fmt.Sprint(os.WriteFile(f[1], input, 0o644))
 	}
+	if len(f) >= 2 && f[0] == "readpacked" {
+		return execReadPacked(f[1:], -1)
+	}
 	if len(f) >= 2 && strings.HasPrefix(f[0], "seg.") && strings.HasPrefix(f[1], "H=") {
 		return execSegModel(f[0], f[1][2:])
 	}
@@ -1124,7 +1144,7 @@ func segmenterTrackOutput(spec []string, ms uint64, which string) (initB []byte,
 
 func resegInputFromSpec(f []string) ([]byte, *ttrack, error) {
 	switch f[0] {
-	case "ff":
+	case "ff", "ffp":
 		t, _, err := ffFromSpec(f)
 		if err != nil {
 			return nil, nil, err
@@ -1159,22 +1179,19 @@ func resegInputFromSpec(f []string) ([]byte, *ttrack, error) {
 
 func combineInputFromSpec(f []string) (ia, sa, ib, sb []byte, ta, tb *ttrack, err error) {
 	switch f[0] {
-	case "ff":
-		if len(f) < 8 {
-			err = fmt.Errorf("bad combine spec")
-			return
-		}
-		a, _, e := ffFromSpec(f[0:4])
+	case "ff", "ffp":
+		a, n, e := ffFromSpec(f)
 		if e != nil {
 			err = e
 			return
 		}
-		b, _, e := ffFromSpec(f[4:8])
+		b, _, e := ffFromSpec(f[n:])
 		if e != nil {
 			err = e
 			return
 		}
-		return a.init, a.segs[0], b.init, b.segs[0], a.truth, b.truth, nil
+		// a media segment file is read on its own: positions in it count from its first byte
+		return a.init, a.segAt(0, 0), b.init, b.segAt(0, 0), a.truth, b.truth, nil
 	case "seg":
 		if len(f) < 4 {
 			err = fmt.Errorf("bad combine spec")
@@ -1331,22 +1348,27 @@ func genC11(c *Ctx) {
 
 	// (b) resegmenter + (c) Fragmentify on library-built fragmented tracks
 	nFF := c.N(900, 8000)
-	for i := 0; i < nFF && !overBudget(); i++ {
-		sub := strconv.FormatInt(r.Int63(), 10)
-		media := []string{"video", "video", "audio"}[r.Intn(3)]
-		spec := []string{"ff", sub, media, "0"}
-		t, _, _ := ffFromSpec(spec)
-		t.describe(c, "ff")
-		// self check: the library reads back what was written (guards the truth side)
-		oe := &outExpanded{}
-		if err := expandFragmentedFile(t.file(), oe); err != nil || len(oe.trackIDs) != 1 {
-			c.Fail("C11-harness-input", "generated fragmented file cannot be expanded", strings.Join(spec, " "), fmt.Sprint(err), "")
-			continue
+	// doTrack: resegmenter + Fragmentify on one fragmented track; packed = the segments are those of the foreign
+	// packager (c11pack.go; fewer durations, its random choices come from rr so that the main sequence is unchanged)
+	doTrack := func(spec []string, t *ffTrack, r *rand.Rand, packed bool) {
+		nDur, nFragDur := c.N(8, 12), c.N(2, 4)
+		if packed {
+			t.describe(c, "ffp")
+			nDur, nFragDur = c.N(5, 8), 1
+			checkPacked(c, spec, t)
+		} else {
+			t.describe(c, "ff")
+			// self check: the library reads back what was written (guards the truth side)
+			oe := &outExpanded{}
+			if err := expandFragmentedFile(t.file(), oe); err != nil || len(oe.trackIDs) != 1 {
+				c.Fail("C11-harness-input", "generated fragmented file cannot be expanded", strings.Join(spec, " "), fmt.Sprint(err), "")
+				return
+			}
+			if !compareTrack(c, "harness-input", strings.Join(spec, " "), "generated fragmented file read back", t.truth, oe.tracks[oe.trackIDs[0]]) {
+				return
+			}
 		}
-		if !compareTrack(c, "harness-input", strings.Join(spec, " "), "generated fragmented file read back", t.truth, oe.tracks[oe.trackIDs[0]]) {
-			continue
-		}
-		durs := resegDurations(r, t.truth, c.N(8, 12))
+		durs := resegDurations(r, t.truth, nDur)
 		type rj struct {
 			ticks uint64
 			tr    toolResult
@@ -1376,7 +1398,10 @@ func genC11(c *Ctx) {
 				total += uint64(s.dur)
 			}
 			fd := []uint32{1, st.samples[0].dur, st.samples[0].dur + 1, uint32(total), uint32(total) + 7}
-			for k := 0; k < c.N(2, 4); k++ {
+			if packed {
+				fd = []uint32{1, uint32(total)}
+			}
+			for k := 0; k < nFragDur; k++ {
 				fd = append(fd, uint32(1+r.Int63n(int64(total)+1)))
 			}
 			for _, d := range fd {
@@ -1391,6 +1416,20 @@ func genC11(c *Ctx) {
 					}
 				}
 			}
+		}
+	}
+	for i := 0; i < nFF && !overBudget(); i++ {
+		sub := strconv.FormatInt(r.Int63(), 10)
+		media := []string{"video", "video", "audio"}[r.Intn(3)]
+		spec := []string{"ff", sub, media, "0"}
+		t, _, _ := ffFromSpec(spec)
+		doTrack(spec, t, r, false)
+		if i%3 == 1 {
+			// the same track as a foreign packager writes it
+			ps := packSeedOf(sub)
+			pspec := []string{"ffp", sub, media, "0", strconv.FormatInt(ps, 10)}
+			pt, _, _ := ffFromSpec(pspec)
+			doTrack(pspec, pt, rand.New(rand.NewSource(ps)), true)
 		}
 	}
 
@@ -1467,6 +1506,16 @@ func genC11(c *Ctx) {
 		a.describe(c, "combine")
 		b.describe(c, "combine")
 		cjobs = append(cjobs, j)
+		if i%4 == 1 {
+			// the same pair as a foreign packager writes the media segments
+			pspec := []string{"ffp", sa, ma, of, strconv.FormatInt(packSeedOf(sa), 10), "ffp", sb, mb, of, strconv.FormatInt(packSeedOf(sb), 10)}
+			pj := &cj{req: "combine " + strings.Join(pspec, " "), trexInput: j.trexInput}
+			pj.ia, pj.sa, pj.ib, pj.sb, pj.ta, pj.tb, err = combineInputFromSpec(pspec)
+			if err == nil {
+				c.Count("combine-segs input: foreign packager layout")
+				cjobs = append(cjobs, pj)
+			}
+		}
 	}
 	for i := 0; i < c.N(100, 800) && i < len(chain); i++ {
 		spec, ms := chain[i], chainMS[i]
@@ -1499,6 +1548,12 @@ func genC11(c *Ctx) {
 			}
 		}
 	}
+}
+
+// packSeedOf: the pack seed of the foreign-packager variant of the track generated from sub (no draw from c.R)
+func packSeedOf(sub string) int64 {
+	h := sha256.Sum256([]byte("pack " + sub))
+	return int64(binary.BigEndian.Uint32(h[:4])) + 1
 }
 
 func bitsLen(v uint64) int {
